@@ -7,7 +7,7 @@ from .. import flow
 from ..engine import Ctx
 from ..model import dotted, unparse
 from . import common as C
-from .brokers import inmem_consume_rules, rabbit_rules, redis_txn_rules, terminal_callers_rule
+from .brokers import inmem_consume_rules, inmem_transfer_atomic, rabbit_rules, redis_txn_rules, terminal_callers_rule
 from .C02 import race
 from .shared import _mentions, await_map
 
@@ -27,6 +27,7 @@ def run(ctx: Ctx) -> None:
     inmem_consume_rules(ctx, rule_t="R-C14-TAKE", rule_a="R-C14-TAKE")
     redis_txn_rules(ctx, ops=(), rule_t="R-C14-TAKE", rule_a="R-C14-TAKE")
     redis_take_reply(ctx)
+    inmem_transfer_atomic(ctx, ops=("reject", "requeue"), rule_t="R-C14-REDELIVER", rule_a="R-C14-REDELIVER")
     rabbit_rules(ctx, rule_t="R-C14-REDELIVER", rule_a="R-C14-REDELIVER", atomic_finding=False)
     finish_own(ctx)
     terminal_callers_rule(ctx, "R-C14-REDELIVER", ops=("reject", "requeue"))
@@ -100,14 +101,15 @@ def maintenance(ctx: Ctx, rule: str) -> None:
     tests = [t for t in g.nodes if t.kind == "test" and _mentions(t.ast, "execution_timeout")]
     ok = False
     why = f"guard is {[t.label[:80] for t in tests]}"
-    if len(tests) == 1 and isinstance(tests[0].ast, ast.Compare) and len(tests[0].ast.ops) == 1:
-        c = tests[0].ast
+    tests = tests or [t for t in g.nodes if t.kind == "test" and any(_mentions(x, "execution_timeout") for x in C.expand_locals(f, t.ast))]
+    if len(tests) == 1 and isinstance(C.inline_locals(f, tests[0].ast), ast.Compare) and len(C.inline_locals(f, tests[0].ast).ops) == 1:
+        c = C.inline_locals(f, tests[0].ast)
         l, r, op = c.left, c.comparators[0], c.ops[0]
         if isinstance(op, ast.Lt):
             l, r, op = r, l, ast.Gt()
         elapsed = isinstance(l, ast.BinOp) and isinstance(l.op, ast.Sub) and dotted(l.left) == "now" and isinstance(l.right, ast.Call) and (dotted(l.right.func) or "").endswith("fromtimestamp") \
             and dotted(l.right.args[0]) == "processing_start_time"
-        ok = isinstance(op, ast.Gt) and elapsed and dotted(r) == "params.execution_timeout"
+        ok = isinstance(op, ast.Gt) and elapsed and isinstance(r, ast.Attribute) and r.attr == "execution_timeout"
         ok = ok and rejects[0].id in (flow.reach(g, [tests[0].id], ("T",)) | flow.reach(g, flow.reach(g, [tests[0].id], ("T",)), flow.NORMAL_KINDS)) \
             and flow.must_pass(g, g.entry.id, [rejects[0].id], [tests[0].id], flow.NORMAL_KINDS)
     ctx.check(ok, rule, f, "maintenance rejects only when now - taken_at > execution_timeout", "elapsed <= timeout never rejects",
@@ -123,7 +125,9 @@ def maintenance(ctx: Ctx, rule: str) -> None:
         ctx.check(any(isinstance(c, ast.Call) and dotted(c.func) == "self.maintenance" for c in ast.walk(cf.node)), "R-C03-MAINT", cf, f"maintenance runs on {fn_name}", "crashed workers' messages are recovered",
                   f"redis {fn_name} does not run maintenance", instance=f"maintenance on {fn_name}")
     rk = [c for c in ast.walk(f.node) if isinstance(c, ast.Call) and dotted(c.func) == "self.ROUTING_KEY_CLASS"]
-    ok = len(rk) == 1 and {k.arg: unparse(k.value) for k in rk[0].keywords} == {"id_": "id_", "topic": "topic", "queue": "queue", "priority": "priority"}
     pm = [n for n in ast.walk(f.node) if isinstance(n, ast.Assign) and isinstance(n.value, ast.Call) and (dotted(n.value.func) or "").endswith("parse_message_name")]
-    ok = ok and len(pm) == 1 and [dotted(e) for e in pm[0].targets[0].elts] == ["id_", "topic", "queue", "priority"]
+    tn = [dotted(e) for e in pm[0].targets[0].elts] if len(pm) == 1 and isinstance(pm[0].targets[0], ast.Tuple) else []
+    ok = len(rk) == 1 and len(tn) == 4 and {k.arg: unparse(k.value) for k in rk[0].keywords} == {"id_": tn[0], "topic": tn[1], "queue": tn[2], "priority": tn[3]}
+    rj_arg = rejects[0].ast.args[0] if rejects and rejects[0].ast.args else None
+    ok = ok and rj_arg is not None and any(x is rk[0] or unparse(x) == unparse(rk[0]) for x in [C.inline_locals(f, rj_arg, calls="all")])
     ctx.check(ok, rule, f, "maintenance rejects the timed-out message itself", "routing key rebuilt from its full name", "redis maintenance rejects another key than the timed-out message's", instance="maintenance key")
